@@ -510,7 +510,7 @@ func c7drain(e *eval.Expr) int {
 
 func c07(r *rep.Run) {
 	depth, bound2, bound3 := 4, 3, 2
-	r.SetBudget(120e9)
+	r.SetBudget(300e9)
 	if r.Thorough() {
 		depth, bound2, bound3 = 5, 5, 3
 		r.SetBudget(1800e9)
